@@ -245,6 +245,7 @@ int g_vcpu;                   /* ... and the named CPU is the virtual one */
 int g_idx, g_tid;             /* payload words, chosen by the harness */
 int w_idx, w_tid, w_hascpu, w_active, w_state, w_found_proc, w_found_loom, w_on_vcpu;
 unsigned long w_psize, w_ncpus;
+int w_cell_null, w_cell_same;  /* replay: the table entry the index names is empty / is the thread's current CPU */
 
 /* effect of a migration that passed the guards, common to both handlers */
 #define MIGRATION_EFFECT(th, ret) ( \
@@ -262,7 +263,8 @@ static int c_pre_affinity_set(struct emu *emu)
 __CPROVER_requires(emu == g_emu && emu->thread == g_rt && SHAPE_CB(g_rt) && AFF_PRE)
 __CPROVER_requires(emu->ev->payload_size < 4 || PAYLOAD_I32(emu, 0) == g_idx)
 __CPROVER_requires(w_idx == g_idx && w_psize == emu->ev->payload_size && w_hascpu == (g_rt->cpu != NULL) &&
-	w_on_vcpu == (g_rt->cpu == &g_loom->vcpu) && w_active == g_rt->is_active && w_ncpus == g_loom->ncpus)
+	w_on_vcpu == (g_rt->cpu == &g_loom->vcpu) && w_active == g_rt->is_active && w_ncpus == g_loom->ncpus &&
+	w_cell_null == (g_cell == NULL) && w_cell_same == (g_cell != NULL && g_cell == g_rt->cpu))
 __CPROVER_requires(g_oldcpu == g_rt->cpu && g_newcpu == SPEC_CPU(g_idx) && NEIGHBOURS_BOUND(g_rt))
 __CPROVER_requires(g_guards == SET_GUARDS(emu) && g_same == (g_rt->cpu == g_newcpu) && g_vcpu == (g_idx == -1))
 AFFINITY_ASSIGNS
@@ -324,7 +326,8 @@ __CPROVER_requires(g_rt == (g_pf != NULL ? g_pf : g_lf))
 __CPROVER_requires(w_idx == g_idx && w_tid == g_tid && w_psize == emu->ev->payload_size &&
 	w_found_proc == (g_pf != NULL) && w_found_loom == (g_lf != NULL) &&
 	w_hascpu == (g_rt != NULL && g_rt->cpu != NULL) && w_on_vcpu == (g_rt != NULL && g_rt->cpu == &g_loom->vcpu) &&
-	w_state == (g_rt != NULL ? (int) g_rt->state : -1) && w_ncpus == g_loom->ncpus)
+	w_state == (g_rt != NULL ? (int) g_rt->state : -1) && w_ncpus == g_loom->ncpus &&
+	w_cell_null == (g_cell == NULL) && w_cell_same == (g_cell != NULL && g_rt != NULL && g_cell == g_rt->cpu))
 __CPROVER_requires(g_newcpu == SPEC_CPU(g_idx) && (g_rt == NULL || (g_oldcpu == g_rt->cpu && NEIGHBOURS_BOUND(g_rt))))
 __CPROVER_requires(g_guards == REMOTE_GUARDS(emu) && g_same == (g_rt != NULL && g_rt->cpu == g_newcpu) && g_vcpu == (g_idx == -1))
 AFFINITY_ASSIGNS
